@@ -697,3 +697,75 @@ func c08CommentSearchStart(w *World, r *Report, rule string) {
 		panic(undecided{"no comment scanner with a terminator search found"})
 	}
 }
+
+// R07.9  what the lexer goroutine owns, only it touches. The lexer runs in its
+// own goroutine, concurrently with the parser; the only synchronisation is
+// the item channel. So:
+//   - the string interner handed to the lexer (an unlocked map) is used only
+//     from the goroutine's code (cone of lexer.run);
+//   - the lexer fields the goroutine writes (pos, start, width, bracketDepth)
+//     are not accessed from the parser side, and the field the parser writes
+//     (lastPos) is not accessed from the goroutine side.
+func c07Confinement(w *World, r *Report) {
+	p := w.Pkg("parse")
+	lexCone := staticCone(w, []string{"parse"}, []*types.Func{w.Method("parse", "lexer", "run")}, true)
+	coneStopAt = map[*types.Func]bool{w.Method("parse", "lexer", "run"): true}
+	parserCone := staticCone(w, []string{"parse"}, []*types.Func{w.Method("parse", "Tree", "Parse")}, true)
+	coneStopAt = nil
+	// functions reachable from both (helpers such as isSpace) are neutral
+	intern := w.Method("parse", "StringInterner", "Intern")
+	n := 0
+	for _, fd := range funcDecls(p) {
+		if fd.Body == nil || isTestFile(w, fd.Pos()) {
+			continue
+		}
+		fn, _ := p.TypesInfo.Defs[fd.Name].(*types.Func)
+		for _, ce := range callsIn(p, fd.Body) {
+			if calleeOf(p, ce) != intern {
+				continue
+			}
+			n++
+			_, inLex := lexCone[fn]
+			_, inParser := parserCone[fn]
+			r.Check(inLex && !inParser, "R07.9", funcDeclName(fd)+" uses the string interner", ce.Pos(), "lexer goroutine only", "the unlocked interner map that the lexer goroutine writes is also used from the parser's goroutine: concurrent map access aborts the process (fatal error, not recoverable)")
+		}
+	}
+	if n == 0 {
+		panic(undecided{"no use of StringInterner.Intern found"})
+	}
+	side := map[string]string{"pos": "lexer", "start": "lexer", "width": "lexer", "bracketDepth": "lexer", "lastPos": "parser"}
+	var names []string
+	for k := range side {
+		names = append(names, k)
+	}
+	sort.Strings(names)
+	for _, fname := range names {
+		fv := w.Field("parse", "lexer", fname)
+		var offenders []string
+		for _, fd := range funcDecls(p) {
+			if fd.Body == nil || isTestFile(w, fd.Pos()) {
+				continue
+			}
+			fn, _ := p.TypesInfo.Defs[fd.Name].(*types.Func)
+			_, inLex := lexCone[fn]
+			_, inParser := parserCone[fn]
+			uses := false
+			ast.Inspect(fd.Body, func(x ast.Node) bool {
+				if se, ok := x.(*ast.SelectorExpr); ok && fieldOfSel(p, se) == fv {
+					uses = true
+				}
+				return true
+			})
+			if !uses {
+				continue
+			}
+			if side[fname] == "lexer" && inParser {
+				offenders = append(offenders, funcDeclName(fd))
+			}
+			if side[fname] == "parser" && inLex && !inParser {
+				offenders = append(offenders, funcDeclName(fd))
+			}
+		}
+		r.Check(len(offenders) == 0, "R07.9", "lexer."+fname+" stays on the "+side[fname]+" side", fv.Pos(), "accessed from one goroutine only", "field "+fname+" belongs to the "+side[fname]+" goroutine but is also accessed in {"+strings.Join(offenders, ", ")+"}: an unsynchronised read/write pair between the two goroutines")
+	}
+}
